@@ -3,8 +3,11 @@
 package executor
 
 import (
-	"github.com/meshplus/bitxhub-core/agency"
 	"sort"
+	"strings"
+
+	"github.com/meshplus/bitxhub-core/agency"
+	"github.com/meshplus/bitxhub/pkg/proof"
 
 	"github.com/cbergoon/merkletree"
 	"github.com/meshplus/bitxhub-kit/types"
@@ -41,3 +44,18 @@ func VerifCalcMerkleRoot(hs []*types.Hash) (*types.Hash, error) {
 
 // VerifContracts returns the registry of built-in contracts exactly as the executor builds it.
 func (exec *BlockExecutor) VerifContracts() map[string]agency.Contract { return exec.registerBoltContracts() }
+
+// verifPlainFalse wraps the real proof pool: a proof whose bytes start with "plain-false" gets the verdict a wasm rule
+// returning 0 produces in VerifyPool.CheckProof (ok=false, err=nil; bitxhub-core validator/wasm_validator.go:57,
+// pkg/proof/proof_pool.go:71-73); every other transaction goes to the real pool.
+type verifPlainFalse struct{ proof.Verify }
+
+func (v verifPlainFalse) CheckProof(tx pb.Transaction) (bool, uint64, error) {
+	if tx.IsIBTP() && strings.HasPrefix(string(tx.GetExtra()), "plain-false") {
+		return false, 0, nil
+	}
+	return v.Verify.CheckProof(tx)
+}
+
+// VerifWrapProofVerdict installs the wrapper above.
+func (exec *BlockExecutor) VerifWrapProofVerdict() { exec.ibtpVerify = verifPlainFalse{exec.ibtpVerify} }
